@@ -95,6 +95,17 @@ def gen(tier, rnd):
             case([xf], single=single, cszx=0, net=['l'] * 8)
             case([xf], single=single, cszx=0, net=['d'] * 30)
             case([xf], single=single, cszx=0, net=['p', 'd'] * 12)
+    # the first k datagrams get through, then the network is dead (a transfer abandoned mid-way: the NACK must carry the application's token);
+    # and every single duplication / loss for Non-confirmable transfers in both delivery modes
+    for (xf, nd) in small:
+        for single in (1, 0):
+            for k in range(1, nd + 2):
+                case([xf], single=single, cszx=0, net=['p'] * k + ['d'] * 40)
+                case([xf], single=single, cszx=0, net=['p'] * k + ['2'] + ['d'] * 40)
+            for pos in range(nd + 3):
+                for v in ('2', 'd', 's'):
+                    case([xf], single=single, con=0, cszx=0, net=['p'] * pos + [v])
+            case([xf], single=single, con=0, cszx=0, net=['2'] * 24)
     # two transfers under faults
     for _ in range(600 if thorough else 40):
         a = rnd.choice(((40, -1), (-1, 40), (40, 40), (70, 20)))
@@ -122,12 +133,26 @@ def run(pid, tier):
         neg = V.tlc('MC_Block', cfgname, workers=4, deque=False, timeout=600)
         if what not in neg['out']:
             raise V.Infra('MC_Block sanity: %s does not produce "%s"' % (cfgname, what))
+    # Block2: the response side (cache keyed by the request, ETag, restart on change, stateless blocks after expiry)
+    m2 = V.mc('MC_Block2', 'MC_Block2.cfg' if tier == 'quick' else 'MC_Block2_thorough.cfg', workers=V.NCPU, xmx='12g', timeout=3000,
+              must_fire=['AServerRecv', 'AClientRecv', 'ADup'])
+    if m2['violated']:
+        raise V.Infra('MC_Block2 violated (specification error):\n' + m2['out'][-2500:])
+    for cfgname in ('MC_Block2_expiry.cfg', 'MC_Block2_expiry_mix.cfg'):
+        st = V.mc('MC_Block2', cfgname, workers=8, timeout=900, must_fire=['ACacheExpires'])
+        if st['violated']:
+            raise V.Infra('MC_Block2 (%s) violated (specification error):\n' % cfgname + st['out'][-2500:])
+    for cfgname, what in (('MC_Block2_freshtoken.cfg', 'Invariant OneLiveChainI is violated'), ('MC_Block2_noetag.cfg', 'Invariant NoRawBlockI is violated'),
+                          ('MC_Block2_leftover.cfg', 'Invariant AtMostOnceI is violated'), ('MC_Block2_done.cfg', 'Invariant NotConcluded is violated')):
+        neg = V.tlc('MC_Block2', cfgname, workers=4, deque=False, timeout=600)
+        if what not in neg['out']:
+            raise V.Infra('MC_Block2 sanity: %s does not produce "%s"' % (cfgname, what))
     cases = gen(tier, rnd)
     env = {f['id']: '1' for f in V.enabled_findings()}
     vio_out, nexec, known, results = V.drive_and_validate(pid, drv, cases, out, 'Trace_Block', env=env, xmx='4g')
     kf = [f for f in V.enabled_findings(pid) if f['id'] in known]
     V.write_evidence(pid, tier, 'model_checking', dict(
-        states=mcst['distinct'], transitions=mcst['generated'], model_action_coverage=mcst['action_cov'], traces_validated_against_impl=nexec, deliveries_judged=sum(r.get('deliveries', 0) for r in results),
+        states=mcst['distinct'] + m2['distinct'], transitions=mcst['generated'] + m2['generated'], model_action_coverage=dict(mcst['action_cov'], **{'Block2.' + k: v for k, v in m2['action_cov'].items()}), traces_validated_against_impl=nexec, deliveries_judged=sum(r.get('deliveries', 0) for r in results),
         samples=[cases[0][1], cases[-1][1]], known_findings_fired=sorted(known), exhaustive=False,
         rule='every body length around the multiples of every block size 16..1024 in both directions, single-body and per-block delivery, CON and NON; '
              'block size from the session maximum (MTU 64..2048 on either side); early renegotiation by the peer; 64 KiB; two transfers on one '
